@@ -682,10 +682,11 @@ def rand_doc_sync(rng, src, dst, weights):
 
 def rand_exclude(rng):
     r = rng.random()
-    if r < 0.5:
-        return rng.choice(["x", "y", "log", ".*\\.txt", "sub", "deep", "z", "data\\.bin$", "emp"])
+    if r < 0.45:
+        return rng.choice(["x", "y", "log", ".*\\.txt", "sub", "deep", "z", "data\\.bin$", "emp", "lvl", "v",
+                           "signac", ".*json", ".*", "signac_statepoint"])      # the last four also match signac's own files
     if r < 0.8:
-        return [rng.choice(["x$", "log.*"]), rng.choice(["y", "w", "sub"])]
+        return [rng.choice(["x$", "log.*", "z", "signac_job.*"]), rng.choice(["y", "w", "sub", "deep", "lvl3"])]
     return []
 
 
@@ -919,4 +920,39 @@ def core_reuse_cases(dries=(False,)):
                     if isinstance(entry, str):
                         opts["selection"] = ["ids", [{"a": 0}]]
                     out.append({"src": src, "dst": dst, "opts": opts, "entry": entry, "prime": [{"a": 1}, {"a": 1}]})
+    return out
+
+
+def core_exclude_cases(dries=(False,)):
+    """Excluded names where copytree does the copying: inside a cloned job, inside left-only directories at depth 2-3,
+    excluded directory names, patterns that match the state point / document name; exclude as None / str / list."""
+    out = []
+    tree = {"x": ["A", 1000], "keep": ["K", 1000], "sub/x": ["B", 1000], "sub/keep": ["K", 1000], "sub/deep/x": ["C", 1000],
+            "sub/deep/keep": ["K", 1000], "logs/a": ["L", 1000], "logs/x": ["M", 1000]}
+    patterns = [None, "x", ["x"], ["x", "keep$"], "logs", ["deep", "logs"], "sub", ".*", "signac", [".*json", "x"], []]
+    for ex in patterns:
+        for scen in ("clone", "leftonly_dir", "common_dirs", "mixed"):
+            for recursive in (False, True):
+                for ds in (None, "copy"):
+                    for dry in dries:
+                        for entry in ("Project.sync", ["Job.sync", {"a": 0}, {"a": 0}]):
+                            if scen == "clone" and entry != "Project.sync":
+                                continue
+                            sj = {"sp": {"a": 0}, "files": dict(tree), "dirs": ["emp"], "doc": {"k": 1}}
+                            if scen == "clone":
+                                djobs = [{"sp": {"a": 1}, "files": {"x": ["D", 1000]}, "dirs": []}]
+                            elif scen == "leftonly_dir":
+                                djobs = [{"sp": {"a": 0}, "files": {"keep": ["K", 1000]}, "dirs": []}]
+                            elif scen == "common_dirs":
+                                djobs = [{"sp": {"a": 0}, "files": {"sub/deep/other": ["O", 1000], "logs/a": ["L", 1000]}, "dirs": []}]
+                            else:
+                                djobs = [{"sp": {"a": 0}, "files": {"x": ["Z", 2000], "sub/x": ["ZZ", 2000], "keep": ["K", 1000]}, "dirs": ["logs"],
+                                          "doc": {"d": 2}}]
+                            src = {"jobs": [sj] + ([{"sp": {"a": 2}, "files": dict(tree), "dirs": []}] if scen == "mixed" else [])}
+                            opts = {"strategy": "always", "recursive": recursive, "check_schema": False, "doc_sync": ds}
+                            if ex is not None:
+                                opts["exclude"] = ex
+                            if dry:
+                                opts["dry_run"] = True
+                            out.append({"src": src, "dst": {"jobs": djobs}, "opts": opts, "entry": entry})
     return out
